@@ -1022,6 +1022,9 @@ fn phase_depth(rep: &Report, term_middles: usize) -> u64 {
         };
         enumerate_trees(&mut acc, "deep", B, &set, &root, &items, &term_shapes[si], &alpha, None, &wrap, 0x1000 + mask as u64);
         total.fetch_add(acc.evals / items.len() as u64, std::sync::atomic::Ordering::Relaxed);
+        if std::env::var("C12_TIMING").is_ok() {
+            eprintln!("[deep] mask {mask} shape {si} right {right} top {top} k {k}: alpha {} evals {} buckets {:?}", alpha.len(), acc.evals, acc.buckets);
+        }
         acc.flush(rep);
     });
     total.into_inner()
@@ -1056,8 +1059,24 @@ fn run(rep: &Report) {
     rep.assume("reference trie hash written from the format description in tests/merkle_set.py (two-leaf sub-tries hash as H(1,1,min,max) at any depth; >=3-leaf sub-tries hash every level)");
     rep.assume("accepting an honest proof followed by trailing bytes would not contradict the property as long as the stated membership is right; such cases are only counted (bucket trailing/accepted-*)");
 
+    // development aid: C12_ONLY=1,2,3a,3c runs a subset of the phases (recorded as a cap, never exhaustive)
+    let only = std::env::var("C12_ONLY").ok();
+    if let Some(o) = &only {
+        rep.cap(&format!("C12_ONLY={o}: only these phases were run"));
+    }
+    let on = |p: &str| only.as_ref().is_none_or(|o| o.split(',').any(|x| x == p));
+    let t0 = std::time::Instant::now();
+    let lap = |what: &str| {
+        if std::env::var("C12_TIMING").is_ok() {
+            eprintln!("[c12] {what} done at {:.1}s", t0.elapsed().as_secs_f64());
+        }
+    };
+
     // (1)
-    phase_roots(rep, &u);
+    if on("1") {
+        phase_roots(rep, &u);
+    }
+    lap("roots");
     rep.sample(json!({"phase":"root","set":["Z","Z1","Z2"],"reference_root":hex::encode(ref_root(&sorted_set(&[u[0],u[1],u[2]]))),"note":"254 hashed (MIDDLE,EMPTY) levels above (two-leaf node, Z2)"}));
 
     // (2) + (3b)
@@ -1068,14 +1087,17 @@ fn run(rep: &Report) {
         let in_sub = mask & !sub_mask == 0;
         jobs.push(ProofJob { mask, all_items: in_sub, byte_level: in_sub, second_order_max_tokens: if in_sub && !quick { 12 } else { 0 } });
     }
-    if quick {
+    if !on("2") {
+    } else if quick {
         // completeness everywhere, rewrites on the sub-universe only
         let (subj, rest): (Vec<ProofJob>, Vec<ProofJob>) = jobs.into_iter().partition(|j| j.all_items);
         phase_proofs(rep, &u, &items, &rest, false);
+        lap("completeness");
         phase_proofs(rep, &u, &items, &subj, true);
     } else {
         phase_proofs(rep, &u, &items, &jobs, true);
     }
+    lap("proofs+rewrites");
     {
         let set = sorted_set(&[u[0], u[1], u[9]]);
         let mut s = set.clone();
@@ -1085,14 +1107,20 @@ fn run(rep: &Report) {
     }
 
     // (3a)
-    let total_trees = phase_trees(rep, if quick { 3 } else { 4 });
-    rep.extra("enumerated_proof_trees", json!(total_trees));
+    if on("3a") {
+        let total_trees = phase_trees(rep, if quick { 3 } else { 4 });
+        rep.extra("enumerated_proof_trees", json!(total_trees));
+    }
+    lap("trees");
     rep.sample(json!({"phase":"tree","set":"{c0.., e0..}","candidate":"MIDDLE(MIDDLE(TERMINAL c0.., TERMINAL e0..), EMPTY)","why":"same collapsed hash as the honest MIDDLE(EMPTY, MIDDLE(EMPTY, MIDDLE(c0,e0))); only the leaf-position audit rejects it"}));
     rep.sample(json!({"phase":"tree","set":"{c0.., e0..}","candidate":"MIDDLE(TRUNCATED root, EMPTY)","why":"would verify and prove exclusion of c0 if TRUNCATED were treated as a collapsible two-leaf node"}));
 
     // (3c)
-    let total_deep = phase_depth(rep, if quick { 1 } else { 2 });
-    rep.extra("enumerated_deep_chain_proofs", json!(total_deep));
+    if on("3c") {
+        let total_deep = phase_depth(rep, if quick { 1 } else { 2 });
+        rep.extra("enumerated_deep_chain_proofs", json!(total_deep));
+    }
+    lap("deep chains");
     rep.sample(json!({"phase":"deep","set":["Z","Z1"],"candidate":"256 x MIDDLE(.,EMPTY) then MIDDLE(TERMINAL Z, TERMINAL Z1)","why":"one level deeper than any real leaf: position 256 of the route is compared with bit 0 (u8 wrap) in the audit"}));
 }
 
